@@ -161,9 +161,30 @@ func (p *Pool) Get() any {
 	}
 	YS(SitePrimBase + 3)
 	if p.New != nil {
-		return p.New()
+		// the yield sites passed inside New must not count: the number of
+		// steps an operation takes (and with it the step budget) would
+		// otherwise depend on whether the pool recycled or not
+		s0 := stepMark()
+		v := p.New()
+		stepRewind(s0)
+		return v
 	}
 	return nil
+}
+
+//go:norace
+func stepMark() int64 {
+	if t := cur; t != nil {
+		return t.steps
+	}
+	return 0
+}
+
+//go:norace
+func stepRewind(s0 int64) {
+	if t := cur; t != nil && t.steps > s0 {
+		t.steps = s0
+	}
 }
 
 // Put mirrors sync.Pool.Put.
